@@ -348,6 +348,13 @@ pub fn parse_lct_header(data: &[u8]) -> Result<LCTHeader> {
         )));
     }
 
+    if data.len() < 4 {
+        return Err(FluteError::new(format!(
+            "pkt size is {}, too short for an LCT header",
+            data.len()
+        )));
+    }
+
     let cp = data[3];
     let flags1 = data[0];
     let flags2 = data[1];
